@@ -582,6 +582,34 @@ def r12(R, repo):
       R.unsure(key, ri, 're-import of `%s` not recognised' % fld)
 
 
+@rule('C05.R13', 'K4', 2, 'the jit fingerprint never identifies objects by name; cached class transforms keep one cache slot per method')
+def r13(R, repo):
+  tr = repo.mod(TR)
+  fp = tr.func('_fingerprint_recursive')
+  named = [n for n in ast.walk(fp.node) if isinstance(n, ast.Attribute) and n.attr in ('__qualname__', '__name__') and not any(isinstance(a, (ast.Raise,)) for a in astu.ancestors(n))
+           and any(isinstance(a, ast.Return) for a in astu.ancestors(n))]
+  if named:
+    R.fail(key_of(fp, 'objects fingerprinted by identity / value, not by name'), (fp, named[0]), '`%s` enters the fingerprint in place of the object: two different functions with the same qualified name (closures made by one factory, lambdas) get the same cache key, so nn.jit reuses a trace made for another function' % astu.short(named[0]))
+  else:
+    R.ok(key_of(fp, 'objects fingerprinted by identity / value, not by name'), fp)
+  f = tr.func('module_class_lift_transform_cached')
+  key = key_of(f, 'one cached transform per method')
+  users = [g for q, g in tr.funcs.items() if q.startswith('module_class_lift_transform_cached.') and any(isinstance(n, ast.Nonlocal) and 'trafo_fn' in n.names for n in astu.body_walk(g.node))]
+  if not users:
+    R.unsure(key, f, 'the wrapper that fills the cache slot (`nonlocal trafo_fn`) was not found')
+  for u in users:
+    parent_q = u.qual.rsplit('.', 1)[0]
+    parent = tr.funcs.get(parent_q)
+    init_here = parent is not None and [n for n in astu.body_walk(parent.node) if isinstance(n, ast.Assign) and astu.src(n.targets[0]) == 'trafo_fn' and astu.enclosing_func(n) is parent.node]
+    init_outer = [n for n in astu.body_walk(f.node) if isinstance(n, ast.Assign) and astu.src(n.targets[0]) == 'trafo_fn' and astu.enclosing_func(n) is f.node]
+    if parent is not None and parent is not f and init_here:
+      R.ok(key, (parent, init_here[0]))
+    elif parent is not None and parent is not f and init_outer:
+      R.fail(key, (f, init_outer[0]), '`trafo_fn = None` was moved out of `%s` (which runs once per method) into the enclosing function: all methods now share one cache slot, so with nn.jit(Cls, methods=[...]) every method runs whichever method was transformed first' % parent.name)
+    else:
+      R.unsure(key, u, 'the per-method cache slot was not recognised')
+
+
 @rule('C05.R9', 'K8', 16, 'collection filters used by the lifting machinery are exact (in_filter is membership)')
 def r9(R, repo):
   _c14.check_in_filter(R, repo)
